@@ -5,6 +5,7 @@ import sys
 import numpy as np
 
 from native import common
+common.light_fedjax()
 from fedjax.core import client_datasets as cds
 
 
